@@ -408,6 +408,38 @@ fn bytes_bits(b: &[u8]) -> usize {
     b.len() * 8
 }
 
+/// TLV-shaped hostile input for the DER readers: a plausible identifier octet, a length in every
+/// form (short, 0x81..0x88 with small / huge / maximal values, indefinite, reserved 0xFF) and a few
+/// content octets - far fewer than announced
+fn der_bytes_strategy() -> BoxedStrategy<Vec<u8>> {
+    let tag = prop_oneof![4 => proptest::sample::select(vec![0x02u8, 0x0A, 0x01, 0x05, 0x30, 0x31, 0x04, 0x03, 0x0C]), 1 => any::<u8>(), 1 => Just(0x1F), 1 => Just(0xBF)];
+    let length = prop_oneof![
+        2 => (0..0x80u8).prop_map(|n| vec![n]),
+        1 => any::<u8>().prop_map(|n| vec![0x81, n]),
+        1 => any::<u16>().prop_map(|n| vec![0x82, (n >> 8) as u8, n as u8]),
+        3 => (proptest::sample::select(vec![0x00u32, 0x01, 0x04, 0x07, 0x7F, 0x80, 0xFF]), any::<u32>()).prop_map(|(hi, rest)| vec![0x84, hi as u8, (rest >> 16) as u8, (rest >> 8) as u8, rest as u8]),
+        1 => any::<u32>().prop_map(|n| vec![0x83, (n >> 16) as u8, (n >> 8) as u8, n as u8]),
+        2 => (1..9u8, any::<u64>()).prop_map(|(k, v)| {
+            let mut out = vec![0x80 | k];
+            out.extend_from_slice(&v.to_be_bytes()[8 - k as usize..]);
+            out
+        }),
+        1 => Just(vec![0x88, 0xFF, 0xFF, 0xFF, 0xFF, 0xFF, 0xFF, 0xFF, 0xFF]),
+        1 => Just(vec![0x80]),
+        1 => Just(vec![0xFF]),
+        1 => Just(vec![0x89, 1, 0, 0, 0, 0, 0, 0, 0, 0]),
+    ];
+    (tag, length, proptest::collection::vec(any::<u8>(), 0..12), any::<bool>())
+        .prop_map(|(t, l, content, skip_tag)| {
+            // (the raw primitives number 1..4 start at the length / content)
+            let mut out = if skip_tag { vec![] } else { vec![t] };
+            out.extend(l);
+            out.extend(content);
+            out
+        })
+        .boxed()
+}
+
 fn random_bytes_strategy() -> BoxedStrategy<(Vec<u8>, usize)> {
     let bytes = prop_oneof![
         6 => proptest::collection::vec(any::<u8>(), 0..13),
@@ -460,7 +492,7 @@ fn random_bytes_strategy() -> BoxedStrategy<(Vec<u8>, usize)> {
         .boxed()
 }
 
-const RULE: &str = "targets: UperReader::read::<T> and ProtobufReader::read::<T> for every type of the compiled zoo, and the DER reader primitives (identifier, length, boolean, integer_i64/u64, Integer<T>/Boolean through BasicReader). Inputs (proptest): (a) random byte strings (0..64 bytes, random / 00 / FF / boundary fills, and hostile self-delimiting numbers - long-form normally-small numbers, length-prefixed integers with k x FF, fragment headers - behind 0..23 random bits) with a random declared bit length; (b) valid encodings of generated values with 1..3 faults from {truncate to a bit, flip a bit, insert / delete / overwrite a byte with a boundary value, duplicate a chunk}. Oracle per case: no panic; on Ok position <= declared length and identical result when every bit beyond the declared length is flipped and bytes are appended (over-read detector); bits_remaining() callable afterwards; peak allocation <= 64 MiB + 64 KiB x input bytes (counting global allocator); a case running > 10 s stops the worker and is confirmed 3x in isolation before it is reported. Non-trivial: the decoder consumed >= 8 bits, or the input is a mutated valid encoding; distinct = hash of (target, type, bytes, bit_len).";
+const RULE: &str = "targets: UperReader::read::<T> and ProtobufReader::read::<T> for every type of the compiled zoo, and the DER reader primitives (identifier, length, boolean, integer_i64/u64, Integer<T>/Boolean through BasicReader). Inputs (proptest): (a) random byte strings (0..64 bytes, random / 00 / FF / boundary fills, and hostile self-delimiting numbers - long-form normally-small numbers, length-prefixed integers with k x FF, fragment headers - behind 0..23 random bits) with a random declared bit length; (a') for the DER readers also TLV-shaped input: identifier octet, a length in every form (short, 0x81..0x89 with small / huge / maximal values, indefinite, 0xFF) and fewer content octets than announced; (b) valid encodings of generated values with 1..3 faults from {truncate to a bit, flip a bit, insert / delete / overwrite a byte with a boundary value, duplicate a chunk}. Oracle per case: no panic; on Ok position <= declared length and identical result when every bit beyond the declared length is flipped and bytes are appended (over-read detector); bits_remaining() callable afterwards; peak allocation <= 64 MiB + 64 KiB x input bytes (counting global allocator); a case running > 10 s stops the worker and is confirmed 3x in isolation before it is reported. Non-trivial: the decoder consumed >= 8 bits, or the input is a mutated valid encoding; distinct = hash of (target, type, bytes, bit_len).";
 
 pub fn run(ctx: Ctx) -> i32 {
     let report = Report::new(ctx.clone(), RULE);
@@ -594,7 +626,7 @@ pub fn run(ctx: Ctx) -> i32 {
         }
         // DER
         for k in report.ctx.my_shards(9) {
-            let strat = random_bytes_strategy().prop_map(move |(bytes, _)| Case { target: Target::Der(k as u8), module: String::new(), ty: String::new(), bit_len: bytes.len() * 8, bytes, origin: "random".into() }).boxed();
+            let strat = prop_oneof![1 => random_bytes_strategy(), 1 => der_bytes_strategy().prop_map(|b| { let n = b.len() * 8; (b, n) })].prop_map(move |(bytes, _)| Case { target: Target::Der(k as u8), module: String::new(), ty: String::new(), bit_len: bytes.len() * 8, bytes, origin: "random".into() }).boxed();
             run_cases(&mut local, "c04-der", k, tier.pick(20_000, 400_000), strat);
         }
         report.merge_local(&mut local);
